@@ -5,6 +5,7 @@ CONSTANTS
   IncFees = {FALSE}
   NChanges = {1}
   QuietW2 = FALSE
+  UseFarTtl = FALSE
   Srcs = {""}
   ActIs = {"a0"}
   ActFs = {"a0"}
